@@ -117,7 +117,12 @@ def check(model, rep):
                     if (left, op, right) in REQUIRED:
                         rep.violation('C06.required', name, 'an operation the property lists as defined raises on every path', loc)
                     else:
-                        rep.holds('C06.kind', name, 'rejected on every path (TypeError)', loc)
+                        kinds_raised = {o.value if isinstance(o, Outcome) else o[1] for o in outs}
+                        odd = sorted(k for k in kinds_raised if k not in ('TypeError', 'ZeroDivisionError', 'ValueError'))
+                        if odd:
+                            rep.violation('C06.kind', where, f'operand kind is not rejected with TypeError but fails with {odd}', loc, triple=name)
+                        else:
+                            rep.holds('C06.kind', name, 'rejected on every path (TypeError)', loc)
                     continue
                 accepted.append((left, op, right))
                 ok_kind = ok_si = ok_unit = True
